@@ -1244,3 +1244,25 @@ impl ClearVOBitsAfterPrepare {
         }
     }
 }
+
+/// Verification hook: run the real hole search for an arbitrary pair of line states.  The space
+/// object is zero-initialised memory in which only the two state bytes are meaningful (the search
+/// reads nothing else from the space); it is never dropped.
+#[cfg(mmtk_verif)]
+impl<VM: VMBinding> ImmixSpace<VM> {
+    pub fn verif_hole_search(
+        current_state: u8,
+        unavail_state: u8,
+        search_start: Address,
+    ) -> Option<(Address, Address)> {
+        let space = std::mem::MaybeUninit::<Self>::zeroed();
+        let space: &Self = unsafe { &*space.as_ptr() };
+        space.line_mark_state.store(current_state, Ordering::Release);
+        space
+            .line_unavail_state
+            .store(unavail_state, Ordering::Release);
+        space
+            .get_next_available_lines(Line::from_aligned_address(search_start))
+            .map(|(s, e)| (s.start(), e.start()))
+    }
+}
